@@ -62,6 +62,15 @@ CHECKS.update({
     'C14': dict(category='model_checking', text='TLC checks on EioServerProps that refused bodies (oversize, undecodable, too many packets) produce no event and that an oversize POST ends the session, on polling, websocket and mid-upgrade models; the real servers are driven with size probes whose wire form is exactly limit-2 .. limit+2 (and 10x) bytes / characters, text and binary, as POST bodies, steady-state frames, first frames and probe-stage frames, for limits 30 .. 10^6 and the tiny limits 1..3, with declared length smaller / larger than the body and declared above the limit, packet counts 0..18 per body plain and form-encoded; every trace is validated by TLC against EioServer (an oversize input must take the OVERSIZE branch, an input of exactly the limit the ordinary one), and the recorded sizes asked of the WSGI body stream must never exceed the limit.', note=CORE_NOTE, technique='TLA+ spec EioServer (OVERSIZE / refused-body branches): TLC exhaustive + TLC trace validation of real executions with exact size probes', design_ref='6 (C14)', engine='tlc-trace'),
 })
 
+CLIENT_NOTE = ('Trusted: TLC + Json module; the fake requests / websocket-client modules and the fake aiohttp session + websocket '
+               '(harness/cworld.py: the real requests and websocket-client packages are not installed in this sandbox, so the threaded '
+               'Client can only run against fakes), greenlet hub / virtual asyncio loop. Environment assumption: one connect() at a time, '
+               'a new connect() only after the previous connection\'s tasks ended.')
+CHECKS.update({
+    'C08': dict(category='model_checking', text='TLC checks on EioClient (MC_EioClient) that every connect event is matched by exactly one disconnect event, state / sid / registry are clean after the end, a connected client is consistent, no task can stay blocked without a deadline or a waker (wait() returns), for polling (every server behaviour at every step, timed), upgrade, websocket-only and two-cycle models, with the repaired defect F17 as negative control; the real Client and AsyncClient are driven by scripted servers: every first answer to connect() (22 HTTP answers x 12 websocket continuations x 3 transport modes) followed by a second cycle, random lifecycles with refusals, bad statuses, garbage, dropped connections, failed POSTs, failed upgrades, repeated cycles, disconnect() from inside the connect and message handlers, silence from every point; each execution is recorded (state, sid, transport, registry, queue, events, every request with its timeout) and validated by TLC against EioClient with the invariants evaluated in every state; every application call must have returned by the end.', note=CLIENT_NOTE, technique='TLA+ spec EioClient: TLC exhaustive + TLC batch trace validation of real Client / AsyncClient executions against a scripted server', design_ref='6 (C08), 3.2', engine='tlc-trace'),
+    'C09': dict(category='model_checking', text='TLC checks on EioClient that received messages are handled exactly once in arrival order, application messages are transmitted at most once and in order, and the transport becomes websocket only through the probe handshake, on polling, upgrade and websocket models; scripted-server conversations (PINGs with arbitrary data, bursts of 1..40 messages, NOOPs, unknown packet types, probe answered correctly / wrongly / never / socket closed, sends of every payload kind in bursts of 1..40, five URL forms with scheme / port / path / query variations, silence from every point) run on both real clients; the trace records every transmitted packet by token (binary as binary frame on websocket, base64 in POST bodies - checked when the harness interns it), URL facts per request, request timeouts and the virtual time of every timeout, and TLC validates each trace against EioClient (PONG echo, batching, probe sequence, silence deadlines pi+pt / max(pi,pt)+5 s).', note=CLIENT_NOTE, technique='TLA+ spec EioClient: TLC exhaustive + TLC batch trace validation of real client conversations', design_ref='6 (C09), 3.2', engine='tlc-trace'),
+})
+
 NOT_YET = 'check not built yet at this commit (construction order in DESIGN.md section 8)'
 
 
